@@ -21,6 +21,7 @@ EXTENDS ChibiInt
 
 CONSTANTS Shapes,       \* which shapes this configuration explores
           D2Types, D2Ops1, D2Ops2,
+          SanityBin,    \* TRUE: also the (costly) theorems about binary operators
           OpAsgAll      \* TRUE: op= over all value pairs; FALSE: boundary values (op= is Load + bin + asg, each checked over all values)
 
 VARIABLES sh, op, op2, a, b, c, x, y, z, ph
@@ -126,7 +127,7 @@ SanityInv ==
   /\ sh = "un" => /\ Convert(x, Promote(a)) = x                             \* promotion preserves the value
                   /\ InRange(x, a) /\ Convert(x, a) = x                     \* conversion is idempotent
                   /\ (op = "lnot" => LAx.v = (IF x = 0 THEN 1 ELSE 0))
-  /\ sh = "bin" =>
+  /\ sh = "bin" /\ SanityBin =>
        /\ TyObs(UAC(a, b)) = TyObs(UAC(b, a))                               \* 6.3.1.8 is symmetric
        /\ W(UAC(a, b)) >= WInt
        /\ (op \in Commutes \cup RelOps => LET m == Bin(Mirror(op), b, y, a, x) IN m.ok = LAx.ok /\ (LAx.ok => m.v = LAx.v))
